@@ -168,6 +168,14 @@ class Verdict:
         """Prints KNOWN-FINDING / VIOLATION lines; returns exit code."""
         for key, descs in sorted(self.known_hits.items()):
             print('KNOWN-FINDING: property=%s %s (%d occurrence(s); e.g. %s)' % (self.pid, key, len(descs), descs[0][:200]))
+        if self.violations or self.known_hits:
+            # development aid: an append-only log of everything ever reported (not read by any check)
+            try:
+                with open(os.path.join(WORK, 'violations-log.ndjson'), 'a') as f:
+                    for key, desc, replay in self.violations[:50]:
+                        f.write(json.dumps({'t': time.time(), 'seed': seed(), 'key': key, 'desc': desc, 'replay': replay}) + '\n')
+            except OSError:
+                pass
         if not self.violations:
             return 0
         os.makedirs(REPLAYS, exist_ok=True)
